@@ -45,6 +45,8 @@ type vmPay struct {
 	problems     []string
 	unguarded    []string         // array writes at a counter without a dominating bound check (C06)
 	flags        map[string]Value // constants stored into other fields of the machine on this path (an overflow flag)
+	forcedOp     *int64           // the opcode the first byte fetched in this iteration is taken to be
+	opFetched    bool
 }
 
 func (p *vmPay) Clone() Payload {
@@ -156,23 +158,28 @@ func (c *Ctx) findDispatch() (*ast.FuncDecl, *ast.ForStmt, *ast.SwitchStmt) {
 			if !ok || fd.Body == nil {
 				continue
 			}
+			// the instruction loop: an unconditional for directly in the function
+			var loop *ast.ForStmt
 			for _, s := range fd.Body.List {
-				fs, ok := s.(*ast.ForStmt)
-				if !ok || fs.Cond != nil || fs.Init != nil || fs.Post != nil {
-					continue
-				}
-				for _, bs := range fs.Body.List {
-					sw, ok := bs.(*ast.SwitchStmt)
-					if !ok || sw.Tag == nil {
-						continue
-					}
-					if isNamed(c.typeOf(sw.Tag), bclPath, "opcode") {
-						if bestSw == nil || len(sw.Body.List) > len(bestSw.Body.List) {
-							bestFd, bestFor, bestSw = fd, fs, sw
-						}
-					}
+				if fs, ok := s.(*ast.ForStmt); ok && fs.Cond == nil && fs.Init == nil && fs.Post == nil {
+					loop = fs
 				}
 			}
+			if loop == nil {
+				continue
+			}
+			// the dispatch: the largest switch on an opcode value in the function — in the loop body, or in a
+			// function literal the loop calls
+			ast.Inspect(fd.Body, func(n ast.Node) bool {
+				sw, ok := n.(*ast.SwitchStmt)
+				if !ok || sw.Tag == nil || !isNamed(c.typeOf(sw.Tag), bclPath, "opcode") {
+					return true
+				}
+				if bestSw == nil || len(sw.Body.List) > len(bestSw.Body.List) {
+					bestFd, bestFor, bestSw = fd, loop, sw
+				}
+				return true
+			})
 		}
 	}
 	return bestFd, bestFor, bestSw
@@ -220,6 +227,12 @@ func (c *Ctx) vmModel() (*vmModel, error) {
 	m.Roles = map[types.Object]string{}
 	for obj, v := range st0.Env {
 		if v.K == vFunc && v.Lit != nil {
+			if v.Lit.Pos() <= sw.Pos() && sw.End() <= v.Lit.End() {
+				// the function literal holding the dispatch itself: no helper
+				m.Roles[obj] = obj.Name()
+				c.litNames[v.Lit] = obj.Name()
+				continue
+			}
 			role := classifyClosure(c, in, st0, v.Lit)
 			if role == "" {
 				role = obj.Name()
@@ -302,6 +315,12 @@ func (c *Ctx) vmModel() (*vmModel, error) {
 			}
 		}
 	}
+	direct := false
+	for _, s := range loop.Body.List {
+		if s == ast.Stmt(sw) {
+			direct = true
+		}
+	}
 	for _, op := range ops {
 		if !handled[op.Val] {
 			m.Unhandled = append(m.Unhandled, op.Name)
@@ -317,7 +336,23 @@ func (c *Ctx) vmModel() (*vmModel, error) {
 			}
 		}
 		st := st0.clone()
-		sts := in.execBlock([]*State{st}, pre)
+		var ends []*State
+		if !direct {
+			// the dispatch is not a statement of the loop (it sits in a function the loop calls): one whole
+			// iteration is interpreted with the opcode fetched at its start taken to be this one
+			val := op.Val
+			st.P.(*vmPay).forcedOp = &val
+			ends = in.execBlock([]*State{st}, loop.Body.List)
+			for _, e := range ends {
+				if ep := e.P.(*vmPay); !ep.opFetched {
+					ep.problems = append(ep.problems, "the iteration does not start by fetching one opcode byte")
+				}
+			}
+		}
+		var sts []*State
+		if direct {
+			sts = in.execBlock([]*State{st}, pre)
+		}
 		var afterInit []*State
 		for _, st := range sts {
 			if st.Term != tNone {
@@ -329,7 +364,6 @@ func (c *Ctx) vmModel() (*vmModel, error) {
 				afterInit = append(afterInit, st)
 			}
 		}
-		var ends []*State
 		for _, st := range afterInit {
 			p := st.P.(*vmPay)
 			// the opcode byte itself is the first read
@@ -486,6 +520,12 @@ func vmHooks(c *Ctx, m *vmModel) Hooks {
 		case "<vm>.prog.code":
 			l, _ := idx.asLin()
 			p.readAt(c, l, linConst(1), "B", e.Pos())
+			if p.forcedOp != nil && !p.opFetched {
+				// the opcode byte: not part of the operand shape
+				p.opFetched = true
+				p.reads = nil
+				return constV(constant.MakeInt64(*p.forcedOp)), true
+			}
 			return tagV("operand", in.freshSym("byte")), true
 		case "<vm>.prog.constants":
 			d := fmt.Sprint(idx)
